@@ -13,4 +13,7 @@ theorem msgReader_reset_matches : ∀ rsv1 : Bool,
     run (envMsgReaderReset rsv1) g_c_msgReader_reset = msgReaderResetExpected rsv1 := by
   decide +kernel
 
+theorem msgReader_setFrame_matches : run (mkEnv []) g_c_msgReader_setFrame = setFrameExpected := by
+  decide +kernel
+
 end WS.Props.G2
